@@ -77,6 +77,8 @@ def _s():
 class SimDateTime(_dt.datetime):
     @classmethod
     def utcnow(cls):
+        if CTX.env is None:
+            return _dt.datetime.utcnow()
         d = CTX.env.utcnow()
         return cls(d.year, d.month, d.day, d.hour, d.minute, d.second, d.microsecond)
 
@@ -269,6 +271,10 @@ def install_once():
     BS.time = simtime
     R.datetime = SimDateTime
     S3C.datetime = SimDateTime
+    # backoff measures max_time with datetime.datetime.now(): the simulated wall clock, like every other clock
+    import backoff._async as BA
+    BA.datetime = _ModProxy(_dt, datetime=SimDateTime)
+    BS.datetime = _ModProxy(_dt, datetime=SimDateTime)
     # randomness
     import os as _os
     A.os = _ModProxy(_os, urandom=sim_urandom)
